@@ -348,6 +348,32 @@ func ruleS1(c *Ctx) {
 							if !call.Call.IsInvoke() && call.Call.StaticCallee() == nil && derivesFromField(call.Call.Value, "starlark.Thread", "OnMaxSteps") {
 								found = true
 							}
+							// the action may live in a helper (thread.stepLimitReached()): every path through it cancels or calls the hook
+							if cal := call.Call.StaticCallee(); cal != nil && cal.Blocks != nil && fnPkgPath(cal) == modPath+"/starlark" && !found {
+								acts := func(x ssa.Instruction) bool {
+									c2, ok := x.(*ssa.Call)
+									if !ok {
+										return false
+									}
+									if cc := c2.Call.StaticCallee(); cc != nil && methodIs(cc, "starlark", "Thread", "Cancel") {
+										return true
+									}
+									return !c2.Call.IsInvoke() && c2.Call.StaticCallee() == nil && derivesFromField(c2.Call.Value, "starlark.Thread", "OnMaxSteps")
+								}
+								any := false
+								eachInstr(cal, func(x ssa.Instruction) {
+									if acts(x) {
+										any = true
+									}
+								})
+								if any && len(cal.Blocks) > 0 && len(cal.Blocks[0].Instrs) > 0 {
+									first := cal.Blocks[0].Instrs[0]
+									leak := pathAvoiding(first, acts, func(x ssa.Instruction) bool { _, ok := x.(*ssa.Return); return ok })
+									if leak == nil && !acts(first) || acts(first) {
+										found = true
+									}
+								}
+							}
 						}
 					}
 				}
@@ -593,13 +619,71 @@ func ruleS4(c *Ctx) {
 		}
 	})
 	key := "CallInternal: recursion option branch"
+	inHelper := false
+	if recIf == nil {
+		// the check may live in a helper whose success dominates the loop: if err := checkCallDepth(thread, fn); err != nil { return }
+		eachInstr(lf.fn, func(in ssa.Instruction) {
+			call, ok := in.(*ssa.Call)
+			if !ok || recIf != nil || in.Parent() != lf.fn {
+				return
+			}
+			cal := call.Call.StaticCallee()
+			if cal == nil || cal.Blocks == nil || fnPkgPath(cal) != modPath+"/starlark" {
+				return
+			}
+			res := cal.Signature.Results()
+			if res.Len() == 0 || res.At(res.Len()-1).Type().String() != "error" {
+				return
+			}
+			var errRes ssa.Value = call
+			if res.Len() > 1 {
+				errRes = nil
+				for _, r := range *call.Referrers() {
+					if ex, ok := r.(*ssa.Extract); ok && ex.Index == res.Len()-1 {
+						errRes = ex
+					}
+				}
+			}
+			if errRes == nil || !dominatedByNilErr(lf.fetch.Block(), errRes) {
+				return
+			}
+			eachInstr(cal, func(in2 ssa.Instruction) {
+				if ifi, ok := in2.(*ssa.If); ok && recIf == nil && in2.Parent() == cal {
+					cond, _ := stripNot(ifi.Cond)
+					if derivesFromField(cond, "internal/compile.Program", "Recursion") {
+						recIf = ifi
+						fn = cal
+						inHelper = true
+					}
+				}
+			})
+		})
+	}
 	if recIf == nil {
 		c.viol(key, c.P.Pos(fn.Pos()), "CallInternal no longer branches on Program.Recursion before the loop")
 		return
 	}
-	if !instrDominates(recIf, lf.fetch) {
+	if !inHelper && !instrDominates(recIf, lf.fetch) {
 		c.viol(key, c.P.Pos(recIf.Pos()), "the Recursion branch does not dominate the interpreter loop")
 		return
+	}
+	if inHelper {
+		// every successful return of the helper passes the branch
+		okDom := true
+		for _, b := range fn.Blocks {
+			if len(b.Instrs) == 0 {
+				continue
+			}
+			if ret, ok := b.Instrs[len(b.Instrs)-1].(*ssa.Return); ok && isNilConst(ret.Results[len(ret.Results)-1]) {
+				if !(recIf.Block() == b || recIf.Block().Dominates(b)) {
+					okDom = false
+				}
+			}
+		}
+		if !okDom {
+			c.viol(key, c.P.Pos(recIf.Pos()), "the helper that checks the call depth can succeed without passing the Recursion branch")
+			return
+		}
 	}
 	c.ok(key, c.P.Pos(recIf.Pos()), "branch on Program.Recursion dominates the loop")
 	_, neg := stripNot(recIf.Cond)
@@ -613,7 +697,7 @@ func ruleS4(c *Ctx) {
 		for i := 0; i < 3 && b != nil; i++ {
 			for _, in := range b.Instrs {
 				if r, ok := in.(*ssa.Return); ok {
-					if len(r.Results) == 2 && !isNilConst(r.Results[1]) {
+					if len(r.Results) >= 1 && !isNilConst(r.Results[len(r.Results)-1]) {
 						return true
 					}
 					return false
